@@ -230,9 +230,26 @@ func sqlCmd(args []string) {
 					res = withWatchdog(wd, func() string {
 						var rows *sql.Rows
 						var err error
-						if mode == "prepared" {
+						switch mode {
+						case "prepared":
 							rows, err = stmt.Query(a...)
-						} else {
+						case "tx":
+							// inside a transaction (Begin / Query / Commit on one pooled connection)
+							tx, terr := db.Begin()
+							if terr != nil {
+								return "ERR"
+							}
+							rows, err = tx.Query(text, a...)
+							if err != nil {
+								tx.Rollback()
+								return "ERR"
+							}
+							res := fmtRows(rows)
+							if cerr := tx.Commit(); cerr != nil {
+								return "ERR-COMMIT"
+							}
+							return res
+						default:
 							rows, err = db.Query(text, a...)
 						}
 						if err != nil {
